@@ -130,6 +130,7 @@ type FuncContract struct {
 	}
 	Params []string // for funcfield / interface contracts: parameter names
 	NoPanicProps []string
+	NoPanicKinds []string // restrict no-panic obligations to these kinds; the rest are API preconditions (assumed)
 	HasNoPanic   bool
 }
 
@@ -540,6 +541,11 @@ func ParseContracts(path string) (*Contracts, error) {
 		case "nopanic":
 			curF.HasNoPanic = true
 			curF.NoPanicProps = append(curF.NoPanicProps, props...)
+			if strings.HasPrefix(rest, "kinds ") {
+				for _, k := range strings.Split(strings.TrimPrefix(rest, "kinds "), ",") {
+					curF.NoPanicKinds = append(curF.NoPanicKinds, strings.TrimSpace(k))
+				}
+			}
 		default:
 			return fmt.Errorf("line %d: unknown clause %q", lineNo, head)
 		}
